@@ -160,6 +160,13 @@ func bencBody(sub int, class string) []byte {
 	return nil
 }
 
+// BencFrame is the well-framed extended message (id 20, the given sub-id) whose payload is the bencoded body of the
+// given class of Framing.tla; other bindings send it to a live peer.
+func BencFrame(sub int, class string) []byte {
+	body := append([]byte{20, byte(sub)}, bencBody(sub, class)...)
+	return append([]byte{byte(len(body) >> 24), byte(len(body) >> 16), byte(len(body) >> 8), byte(len(body))}, body...)
+}
+
 func classifyAlloc(n int64, flen int64) string {
 	switch {
 	case n <= 64<<10:
@@ -318,6 +325,22 @@ func runFrame(c *Case) *Obs {
 var ip4s = map[int][4]byte{1: {192, 0, 2, 1}, 2: {10, 255, 0, 254}}
 var ip6s = map[int][16]byte{3: {0x20, 0x01, 0x0d, 0xb8, 0, 0, 0, 0, 0, 0, 0, 0, 0, 0, 0, 3}, 4: {0xfe, 0x80, 0, 0, 0, 0, 0, 0, 1, 2, 3, 4, 5, 6, 7, 8},
 	5: {0, 0, 0, 0, 0, 0, 0, 0, 0, 0, 0xff, 0xff, 203, 0, 113, 5}}
+
+// addresses beyond the table are made from the number
+func ip4Of(k int) [4]byte {
+	if a, ok := ip4s[k]; ok {
+		return a
+	}
+	return [4]byte{198, 18, byte(k >> 8), byte(k)}
+}
+
+func ip6Of(k int) [16]byte {
+	if a, ok := ip6s[k]; ok {
+		return a
+	}
+	return [16]byte{0x20, 0x01, 0x0d, 0xb8, 0, 1, 0, 0, 0, 0, 0, 0, 0, 0, byte(k >> 8), byte(k)}
+}
+
 var rawip4 = [4]byte{198, 51, 100, 7}
 var rawip6 = [16]byte{0x20, 0x01, 0x0d, 0xb8, 0xff, 0, 0, 0, 0, 0, 0, 0, 0, 0, 0, 9}
 
@@ -383,11 +406,11 @@ func expand(toks []map[string]any) ([]byte, error) {
 			body = append(body, ':')
 			body = append(body, b...)
 		case "ip4":
-			a := ip4s[num(t["k"])]
+			a := ip4Of(num(t["k"]))
 			body = append(body, a[:]...)
 			body = binary.BigEndian.AppendUint16(body, uint16(num(t["port"])))
 		case "ip6":
-			a := ip6s[num(t["k"])]
+			a := ip6Of(num(t["k"]))
 			body = append(body, a[:]...)
 			body = binary.BigEndian.AppendUint16(body, uint16(num(t["port"])))
 		case "rawip4":
@@ -411,9 +434,9 @@ func peersOf(v any) []pex.Peer {
 		p := x.(map[string]any)
 		var addr netip.Addr
 		if p["six"].(bool) {
-			addr = netip.AddrFrom16(ip6s[num(p["k"])])
+			addr = netip.AddrFrom16(ip6Of(num(p["k"])))
 		} else {
-			addr = netip.AddrFrom4(ip4s[num(p["k"])])
+			addr = netip.AddrFrom4(ip4Of(num(p["k"])))
 		}
 		ps = append(ps, pex.Peer{Addr: netip.AddrPortFrom(addr, uint16(num(p["port"]))), Flags: byte(num(p["f"]))})
 	}
@@ -754,6 +777,10 @@ func runStream(c *Case) *Obs {
 		kinds = append(kinds, sc.M["k"].(string))
 	}
 	o.Out = strings.Join(kinds, ",")
+	if len(stream) == 0 {
+		// none of the messages drawn is one the writer emits on its own: nothing to cut
+		return o
+	}
 	viol := func(what string) {
 		if len(o.Violations) < 3 {
 			o.Violations = append(o.Violations, Viol{"C06", "stream-cut", what + " (messages " + o.Out + ")"})
